@@ -219,6 +219,15 @@ func TestC12Sweep(t *testing.T) {
 	defer st.Flush()
 	ct := &collectTB{}
 	var cases []C12Case
+	// contents whose check words contain zeros at the front, at the end or inside (constructed, see zeroecc_test.go)
+	for _, q := range qrZeroECCCases(8) {
+		q := q
+		cases = append(cases, C12Case{Sym: "qr", QR: &q})
+	}
+	for _, d := range dmZeroECCCases() {
+		d := d
+		cases = append(cases, C12Case{Sym: "datamatrix", DM: &d})
+	}
 	for v := 1; v <= 40; v++ {
 		for l := 0; l < 4; l++ {
 			n := qrCapacity(v, l, 4)
